@@ -278,8 +278,13 @@ func (p *Pri) Load(r Raw) {
 		p.cFrom.OnWDM, p.cFrom.OnPC, p.autoHooks = nil, nil, false
 	}
 	if r.Dirt != 0 && c.OnWDM == nil && c.OnPC == nil {
-		// observers installed that do nothing: a hook must not change what an instruction does
+		// observers installed: OnPC does nothing; OnWDM does nothing (Dirt 1) or raises an interrupt request
+		// WHILE the Step is running (Dirt 2: a request raised during a Step is pending for the next one; both
+		// interpreters must keep it)
 		c.OnWDM = func(byte) {}
+		if r.Dirt == 2 {
+			c.OnWDM = func(byte) { c.TriggerIRQ() }
+		}
 		c.OnPC = map[uint32]func(){uint32(r.RK)<<16 | uint32(r.PC): func() {}}
 		p.autoHooks = true
 	}
@@ -359,6 +364,9 @@ func (p *Alt) Load(r Raw) {
 	}
 	if r.Dirt != 0 && c.OnWDM == nil && c.OnPC == nil {
 		c.OnWDM = func(byte) {}
+		if r.Dirt == 2 {
+			c.OnWDM = func(byte) { c.TriggerIRQ() }
+		}
 		c.OnPC = map[uint32]func(){uint32(r.RK)<<16 | uint32(r.PC): func() {}}
 		p.autoHooks = true
 	}
